@@ -242,7 +242,7 @@ tagspec(struct scope *s)
 		break;
 	case TYPEENUM:
 		enumconsts = NULL;
-		if (et) {
+		if (t->base) {
 			t->size = t->base->size;
 			t->align = t->base->align;
 			t->u.basic.issigned = t->base->u.basic.issigned;
